@@ -247,7 +247,7 @@ def check_C03(ctx):
         ctx.rep.violation({'kind': 'relation', 'relation': 'C03_ascii_agrees_with_5321', 'case': l, 'implementation': o,
                            'explanation': 'pure-ASCII local part decided differently by is_5321_local (2nd field) and is_6531_local (4th field)'})
     # mode 6531 as a whole: the same local parts in front of a host name and of address literals (no IDN conversion is involved for these domains)
-    locs = [bytes.fromhex(l.split()[1]) for l in gens.local_class(4) if l.split()[1] != '-'] + [bytes.fromhex(l.split()[1]) for l in gens.utf8_lines(False)[::7] if l.split()[1] != '-']
+    locs = [bytes.fromhex(l.split()[1]) for l in gens.local_class(4) if l.split()[1] != '-'] + [bytes.fromhex(l.split()[1]) for l in sub(ctx, gens.utf8_lines(False), 7) if l.split()[1] != '-']
     locs += ['é'.encode(), 'a.é.b'.encode(), '"é"'.encode(), 'Ю.Я'.encode(), '€'.encode(), '😀.a'.encode(), b'a.\xc3', b'\xff']
     locs = sorted(set(l for l in locs if 0 not in l and 0 < len(l) <= 64))
     doms = (b'b.com', b'[1.2.3.4]', b'[IPv6:::1]', b'[1::2:3:4]')
@@ -308,7 +308,7 @@ def check_C12(ctx):
     byclass = {}
     for nme, l, t in ctx.snap.dump()['tld']:
         byclass.setdefault(t, bytes.fromhex(nme))
-    cd = [d for d in gens.reserved_domains()[::4] if b'@' not in d] + [b'b.' + v for v in byclass.values()] + [b'example.com', b'a.example.org', b'example.net', b'examples.com', b'xexample.com', b'test', b'a.test', b'localhost', b'b.onion', b'a.invalid', b'mail.example']
+    cd = [d for d in sub(ctx, gens.reserved_domains(), 4) if b'@' not in d] + [b'b.' + v for v in byclass.values()] + [b'example.com', b'a.example.org', b'example.net', b'examples.com', b'xexample.com', b'test', b'a.test', b'localhost', b'b.onion', b'a.invalid', b'mail.example']
     for d in cd:
         for v in cases(d):
             addrs += [b'u@' + v, b'u@' + v + b'.']
@@ -358,6 +358,10 @@ def facade_decision(ln, o):
     if 'CRASH' in o or 'ABORT' in o or 'FAULT' in o: return 'CRASH'
     tok = o.split(' ')
     return tok[4].split(':')[0] if len(tok) > 4 else o
+
+def sub(ctx, lst, k):
+    """every k-th element in the quick tier (the offset follows VERIF_SEED, so different seeds see different elements); everything in the thorough tier"""
+    return lst if ctx.thorough() else lst[(ctx.seed % k)::k]
 
 def first_fields(k):
     return lambda ln, o: ' '.join(o.split(' ')[:k])
@@ -477,7 +481,7 @@ def check_C09(ctx):
     step_proof(ctx)
     doms = gens.reserved_domains(full=ctx.thorough())
     desc = lambda ln, a, b: 'is_special_domain / class of a reserved-looking domain differs from the model (C09_reserved_exactly: special iff last label in {test,example,invalid,localhost,onion} or last two labels example.{com,net,org}): implementation %s, model %s' % (a, b)
-    doms += [p + b'x' * n for n in range(0, 70) for p in (b'', b'a.', b'example.', b'a.b.')] + [d for d in gens.dom_boundary()[::5]]
+    doms += [p + b'x' * n for n in range(0, 70) for p in (b'', b'a.', b'example.', b'a.b.')] + [d for d in sub(ctx, gens.dom_boundary(), 5)]
     corr(ctx, 'is_special_domain', ['S %s' % hx(d) for d in doms], lambda ln, o: o, exhaustive=True, describe=desc,
          nontrivial=lambda ln, o: True, note='0-3 labels of lengths 1-63 and the words example/mailbox/test/com... before each reserved suffix and its one-edit neighbours, several case patterns')
     valid = [d for d in doms if not d.endswith(b'.') and b'..' not in d and not d.startswith(b'.')]
@@ -733,7 +737,7 @@ def check_C15(ctx):
     tab = ctx.snap.dump()
     # the message table of this build vs the documented one is Theorem C15_message_table (regenerated GenEnums.v)
     addrs = sorted(set(gens.addr_class(4) + gens.addr_class(4, alpha=gens.ADDR_ALPHA_Q) + gens.addr_structured() + gens.addr_boundary() +
-                       [b'u@' + d for d in gens.dom_boundary()[::7]] + [b'u@' + d for d in gens.reserved_domains()[::5] if b'@' not in d]))
+                       [b'u@' + d for d in sub(ctx, gens.dom_boundary(), 7)] + [b'u@' + d for d in sub(ctx, gens.reserved_domains(), 5) if b'@' not in d]))
     byclass = {}
     for nme, l, t in tab['tld']:
         byclass.setdefault(t, bytes.fromhex(nme))
@@ -791,7 +795,7 @@ def check_C15(ctx):
 def check_C16(ctx):
     step_proof(ctx)
     addrs = sorted(set(gens.addr_class(4) + gens.addr_class(4, alpha=gens.ADDR_ALPHA_Q) + gens.addr_structured() + gens.addr_boundary() +
-                       [b'u@[' + c + b']' for c in gens.ip_contents()[::3]] + [b'u@' + d for d in gens.reserved_domains()[::9] if b'@' not in d]))
+                       [b'u@[' + c + b']' for c in sub(ctx, gens.ip_contents(), 3)] + [b'u@' + d for d in sub(ctx, gens.reserved_domains(), 9) if b'@' not in d]))
     orc = vlib.idn_oracle(gens.domains_of(addrs))
     el = gens.e_lines(addrs, orc)
     desc = lambda ln, a, b: 'result record (rc idn_rc is_ipv4/is_ipv6/is_domain lpart domain) differs from the model of theorem C16_result_shapes: %s vs %s' % (a, b)
@@ -909,7 +913,7 @@ def check_C17(ctx):
     step_proof(ctx)
     n = 5 if ctx.thorough() else 4
     alphaL = gens.LOCAL_ALPHA + [b'~', b'{', b'^']
-    L = gens.local_class(n, alpha=alphaL) + gens.local_sweep()[::3] + gens.local_random(ctx.rnd, 20000)
+    L = gens.local_class(n, alpha=alphaL) + sub(ctx, gens.local_sweep(), 3) + gens.local_random(ctx.rnd, 20000)
     Dd = gens.dom_class(5) + gens.dom_boundary(chars=(b'_', b'x', b'-'))
     D = gens.dom_lines(Dd) + gens.dom_lines([d.replace(b'_', b'a') for d in Dd])
     addrs = gens.addr_structured() + [b'a#b@c.org', b'"a#b"@c.org', b'a@b_c.org', b'a_b@c_d.e_f', b'"a b"@c.org', b'a~b.{c}@d.com'] + gens.addr_class(3, alpha=[b'a', b'_', b'#', b'.', b'@', b'"', b' '])
@@ -1089,7 +1093,7 @@ def check_C10(ctx):
     import csv
     raw = list(csv.reader(open(os.path.join(ctx.snap.src, 'data', 'raw.csv'), newline='', encoding='utf-8')))[1:]
     doms += [('mail.' + r[0]).encode() for r in raw if any(ord(ch) > 127 for ch in r[0])]
-    asc = gens.dom_class(5)[::4] + gens.dom_boundary()[::3] + [d for d in gens.reserved_domains()[::11]] + [b'B.CoM', b'Example.ORG', b'TEST', b'b.MUSEUM', b'A-B.c-D.Int']
+    asc = sub(ctx, gens.dom_class(5), 4) + sub(ctx, gens.dom_boundary(), 3) + [d for d in sub(ctx, gens.reserved_domains(), 11)] + [b'B.CoM', b'Example.ORG', b'TEST', b'b.MUSEUM', b'A-B.c-D.Int']
     orc = vlib.idn_oracle(doms + asc)
     alab = sorted(set(a for d in doms for (rc, a) in [orc[d]] if rc == 0 and a))
     orc.update(vlib.idn_oracle(alab))
@@ -1315,7 +1319,7 @@ def check_C14(ctx):
 # ------------------------------------------------------------------ C18
 def check_C18(ctx):
     step_proof(ctx)
-    addrs = sorted(set(gens.addr_structured() + gens.addr_class(3) + gens.addr_boundary()[::3] + [b'u@' + d for d in gens.reserved_domains()[::13] if b'@' not in d] +
+    addrs = sorted(set(gens.addr_structured() + gens.addr_class(3) + sub(ctx, gens.addr_boundary(), 3) + [b'u@' + d for d in sub(ctx, gens.reserved_domains(), 13) if b'@' not in d] +
                        [b'u@' + d for d in gens.idn_domains(ctx.rnd, 300) if b'@' not in d]))
     orc = vlib.idn_oracle(gens.domains_of(addrs) | gens.domains_of(gens.HIST_POOL))
     el = gens.e_lines(addrs, orc)
@@ -1373,20 +1377,20 @@ def legal_history(h):
 # ------------------------------------------------------------------ C06
 def c06_corpus(ctx):
     rnd = ctx.rnd
-    L = gens.local_class(4) + gens.local_sweep()[::2] + gens.utf8_lines(False)[::5] + gens.local_random(rnd, 5000)
+    L = gens.local_class(4) + sub(ctx, gens.local_sweep(), 2) + sub(ctx, gens.utf8_lines(False), 5) + gens.local_random(rnd, 5000)
     # truncated multi-byte sequences and look-ahead triggers right at the terminator
     for pre in (b'', b'a', b'"', b'a.', b'"\\'):
         for u in (b'\xc3', b'\xe2', b'\xe2\x82', b'\xf0', b'\xf0\x9f', b'\xf0\x9f\x98', b'\r', b'\r\n', b'.', b'"', b'\\', b' ', b'-'):
             L.append('L %s -' % hx(pre + u))
-    D = gens.dom_lines(gens.dom_class(5) + gens.dom_boundary() + gens.dom_sweep()[::3]) + gens.dom_lines(gens.dom_class(3), rests=(b'x', b'.'))
+    D = gens.dom_lines(gens.dom_class(5) + gens.dom_boundary() + sub(ctx, gens.dom_sweep(), 3)) + gens.dom_lines(gens.dom_class(3), rests=(b'x', b'.'))
     I = []
     for c in gens.ip_contents():
         for k in '46P':
             I.append('%s %s %s' % (k, hx(c), hx(b']'))); I.append('%s %s -' % (k, hx(c)))
-    S = ['S %s' % hx(d) for d in gens.reserved_domains()] + ['T %s' % hx(d) for d in gens.reserved_domains()[::3]] + ['S %s' % hx(d) for d in gens.dom_class(4)]
-    S += ['S %s' % hx(d) for d in gens.dom_boundary()] + ['T %s' % hx(d) for d in gens.dom_boundary()[::4]] + ['S %s' % hx(b'b.' + b'x' * n) for n in range(0, 300)]
-    addrs = gens.addr_class(4) + gens.addr_structured() + gens.addr_boundary() + [b'u@[' + c + b']' for c in gens.ip_contents()[::2]]
-    addrs += [b'u@' + d for d in gens.dom_boundary()[::2]] + [b'u@b.' + b'x' * n for n in range(1, 80)]
+    S = ['S %s' % hx(d) for d in gens.reserved_domains()] + ['T %s' % hx(d) for d in sub(ctx, gens.reserved_domains(), 3)] + ['S %s' % hx(d) for d in gens.dom_class(4)]
+    S += ['S %s' % hx(d) for d in gens.dom_boundary()] + ['T %s' % hx(d) for d in sub(ctx, gens.dom_boundary(), 4)] + ['S %s' % hx(b'b.' + b'x' * n) for n in range(0, 300)]
+    addrs = gens.addr_class(4) + gens.addr_structured() + gens.addr_boundary() + [b'u@[' + c + b']' for c in sub(ctx, gens.ip_contents(), 2)]
+    addrs += [b'u@' + d for d in sub(ctx, gens.dom_boundary(), 2)] + [b'u@b.' + b'x' * n for n in range(1, 80)]
     # every byte value at the structural positions of an address
     for c in range(1, 256):
         ch = bytes([c])
